@@ -168,6 +168,8 @@ class MemoryPoolList {
   }
 
   Pool* addPool(Allocator* allocator) {
+    if (count_ >= maxPools)
+      return nullptr;
     if (count_ == capacity_ && !increaseCapacity(allocator))
       return nullptr;
     auto pool = &pools_[count_++];
@@ -179,10 +181,12 @@ class MemoryPoolList {
   }
 
   bool increaseCapacity(Allocator* allocator) {
-    if (capacity_ == maxPools)
+    if (capacity_ >= maxPools)
       return false;
     void* newPools;
     auto newCapacity = PoolCount(capacity_ * 2);
+    if (newCapacity > maxPools || newCapacity < capacity_)
+      newCapacity = maxPools;
 
     if (pools_ == preallocatedPools_) {
       newPools = allocator->allocate(newCapacity * sizeof(Pool));
